@@ -105,9 +105,13 @@ class C12:
         # R12.3 rejections
         bad = None
         n = 0
-        for a_val, r_val in itertools.product([None, 0.0, 0.5, 1.5], [None, -1e-9, 0.0, 0.5, 1.0, 1.0 + 1e-9, -1.0, 2.0]):
+        # the decision may not depend on the intervals: it is evaluated for ordinary, touching and zero-length ones alike
+        interval_cases = [((0.0, 2.0), (1.0, 4.0)), ((0.0, 1.0), (1.0, 2.0)), ((1.0, 1.0), (0.0, 2.0)), ((3.0, 3.0), (3.0, 3.0))]
+        for (a_val, r_val), (iv1, iv2) in itertools.product(
+                itertools.product([None, 0.0, 0.5, 1.5], [None, -1e-9, 0.0, 0.5, 1.0, 1.0 + 1e-9, -1.0, 2.0]), interval_cases):
             a_given = a_val is not None
-            env = {("cmp", "is", A, NONE): not a_given, ("cmp", "isnot", A, NONE): a_given, R: r_val, A: a_val}
+            env = {("cmp", "is", A, NONE): not a_given, ("cmp", "isnot", A, NONE): a_given, R: r_val, A: a_val,
+                   s1: iv1[0], e1: iv1[1], s2: iv2[0], e2: iv2[1]}
             rej = False
             for r in s.raises:
                 lv = peval(r.live, env)
